@@ -49,18 +49,25 @@ def convAny (fresh : Nat → Value) (fadd : Bytes → Option Bytes) (st : MigSt)
       | none => none
   | .other => none
 
-/-- `migrate_flow`; outer `none` = an exception (unknown version, conflicting version information, or a converter raised) -/
-def migrateFlow (fresh : Nat → Value) (fadd : Bytes → Option Bytes) (cur : Int) : Nat → MigSt → Option VKey → Dict → Option (MigSt × Dict)
+/-- `migrate_flow`, three-valued: OUTER `none` = the model ran out of fuel (the Python loop would still be turning);
+    `some none` = an exception (unknown or missing version, conflicting version information, or a converter raised);
+    `some (some (st, d))` = returned `d` with the tables `st`. -/
+def migrateFlowF (fresh : Nat → Value) (fadd : Bytes → Option Bytes) (cur : Int) :
+    Nat → MigSt → Option VKey → Dict → Option (Option (MigSt × Dict))
   | 0, _, _, _ => none
   | f + 1, st, prev, d =>
     match versionKey d with
-    | none => none
+    | none => some none
     | some k =>
-      if k = .int cur then some (st, d)
-      else if some k = prev then none                              -- "Flow has conflicting version information."
+      if k = .int cur then some (some (st, d))
+      else if some k = prev then some none                         -- "Flow has conflicting version information."
       else match convAny fresh fadd st k d with
-        | none => none                                             -- "cannot read files with flow format version …"
-        | some none => none                                        -- the converter raised
-        | some (some (st', d')) => migrateFlow fresh fadd cur f st' (some k) d'
+        | none => some none                                        -- "cannot read files with flow format version …"
+        | some none => some none                                   -- the converter raised
+        | some (some (st', d')) => migrateFlowF fresh fadd cur f st' (some k) d'
+
+/-- the two failure kinds merged (what a caller that supplies enough fuel sees) -/
+def migrateFlow (fresh : Nat → Value) (fadd : Bytes → Option Bytes) (cur : Int) (f : Nat) (st : MigSt) (prev : Option VKey)
+    (d : Dict) : Option (MigSt × Dict) := (migrateFlowF fresh fadd cur f st prev d).join
 
 end MitmVerif.C38Conv
